@@ -1,5 +1,336 @@
-import Luqum.Model.Es
+/-
+  C06 — Each query term becomes exactly one Elasticsearch clause, on the right field, with the right
+  name and modifiers, in document order.
+
+  `ElasticsearchQueryBuilder(**cfg)(tree)` is `esBuild cfg tree` (`Luqum.Model.Es`): a function of the
+  configuration and the tree — the builder keeps no state between calls, so determinism (same
+  configuration, same tree, same JSON) is definitional; there is nothing to prove beyond that.
+
+  Definitions (`Luqum.Lemmas.EsLeaves`, `EsLeavesSpec`, `EsLeavesChar`):
+  * `leaves j`: the leaf clauses of the JSON query `j` in document order: a clause whose first key is
+    `bool` stands for the clauses in the lists of its value (`must`, `should`, `must_not`: in the order
+    of the keys), a clause whose first key is `nested` for the clauses of its `query`, any other
+    clause (`isLeafClause`) is a leaf.
+  * `expectedItems cfg t` (`expItems cfg {} .top [] t`): one item per word / phrase / range of `t` (range
+    bounds are no terms of their own, a regex yields nothing), in document order, by direct top-down
+    recursion on the query, independent of the visitor. Each term gets
+      - the field path, analysed marker and nearest name of the context `x : EsCtx` accumulated from
+        the enclosing nodes (`fieldCtxL`, `pushName`; the term's own name wins: `ownName`);
+      - the pending modifiers `ms : List Mod` (innermost first): boost / fuzziness / slop of the
+        enclosing `^` / `~` (a proximity on a non-analysed field acts as fuzziness; slop is only set on
+        phrases), and `zero_terms_query` = "all" / "none" when the term is a DIRECT operand of a
+        conjunction (`AND`, `+`, implicit operation with default MUST) / a negation (`NOT`, `-`).
+        An operation, a unary operator, and a field that gets a `nested` wrapper (`reachesNested`) reset
+        the pending modifiers: `(a b)^2` boosts nothing; groups and plain fields let them through.
+      - `u : Up` records of which operation the node is a direct operand: an operand of exactly the
+        same class is flattened into it (`simplify_if_same`; also `++a`) and its own name is NOT
+        propagated (the visitor enters the operands with the context of the parent).
+    `expectedLeaves cfg t` is their JSON.
+  * read off the query alone: `countTerms t` (number of words and phrases outside ranges + number of
+    ranges), `expFields cfg none t` (field path of each term: the '.'-separated components of the names
+    of the enclosing `SearchField`s, or `[default_field]`), `expNames none .top t` (the `_name` of each
+    term: its own name, even an empty one; else the non-empty name of the nearest enclosing node that
+    is not flattened away).
+
+  Theorems (NO `Supported` hypothesis is needed: whenever the builder returns a JSON, it is right):
+  * `leaves_eq_expected`   : `cfgPlain cfg`, `noBool t`, `esBuild cfg t = .ok j` ⊢ `leaves j = expectedLeaves cfg t`
+                             (as lists, in document order);
+  * `leaves_perm_expected` : the same without `noBool t`, as multisets (`List.Perm`): an
+                             `EBoolOperation` regroups its operands into must / should / must_not;
+  * `leaves_length`        : (1) `(leaves j).length = countTerms t`;
+  * `build_ok`, `eLeaves_perm_expected`, `eLeaves_eq_expected`: the same on the items of the E-tree
+                             the visitor returns (no hypothesis on the configuration);
+  * `expected_fields`      : (2) `(expectedItems cfg t).map (·.fields) = expFields cfg none t`, and
+                             `json_field`: where `joinDot i.fields` appears in the clause of an item;
+  * `expected_names`       : (3) `(expectedItems cfg t).map (·.name) = expNames none .top t`;
+  * `leaf_is_expected`     : every leaf clause is the JSON of an expected item;
+  * `json_default_field`   : in a `query_string` clause the field name is the `default_field`;
+  * `every_term_one_clause`: with C07 (`translated`): a supported query without container-field misuse
+                             and without AND/OR mix IS translated, and the above holds of its JSON.
+
+  Hypotheses: `cfgPlain cfg` — no field option asks for the match type `bool` / `nested` (else the
+  clause of a term would itself read as a compound clause; negative witness below); `noBool t` for the
+  order (negative witness below). The proofs are on `visitS` (`Luqum.Lemmas.EsStruct`).
+-/
+import Luqum.Lemmas.EsLeavesChar
+import Luqum.Props.C07
+
 namespace Luqum.Props.C06
-open Luqum
+open Luqum Luqum.Lemmas.Es
+
+export Luqum.Lemmas.Es (leaves leavesBool leavesParts leavesPart leavesList leavesNested leavesQuery
+  eLeaves eLeavesL eBoolPart eItems eItemsL Mod actAll Up flatOp flatUn unUp zeroMods pushName ownName
+  fieldCtxL reachesNested wordItem phraseItem rangeItem expItems expItemsL countTerms countTermsL
+  expFields expFieldsL pathOr pushNm ownNm expNames expNamesL noBool noBoolL cfgPlain isLeafClause)
+
+/-- the items expected for the terms of the query, in document order -/
+def expectedItems (c : EsCfg) (t : Tree) : List EItem := expItems c {} .top [] t
+
+/-- the clauses expected for the terms of the query, in document order -/
+def expectedLeaves (c : EsCfg) (t : Tree) : List JVal := (expectedItems c t).map (EItem.json c)
+
+/-! ### the E-tree returned by the visitor -/
+
+/-- a successful build is the JSON of the single E-node the visitor returns -/
+theorem build_ok (c : EsCfg) (t : Tree) (j : JVal) (h : esBuild c t = .ok j) :
+    ∃ e, esVisit c {} t = .ok [e] ∧ j = e.json c := by
+  unfold esBuild at h
+  split at h
+  · cases h
+  · split at h
+    · cases h
+    · cases h
+    · rename_i e rest hv
+      cases h
+      have hl := visitS_none_length c t {} _ (by rw [← esVisit_eq]; exact hv)
+      cases rest with
+      | nil => exact ⟨e, hv, rfl⟩
+      | cons a r => simp at hl
+
+/-- the items of the returned E-node, in the order of the E-tree, are the expected ones; all of them
+have one of the builder's methods -/
+theorem visit_items (c : EsCfg) (t : Tree) (e : ETree) (h : esVisit c {} t = .ok [e]) :
+    eItems e = expectedItems c t ∧ allItems okItem e = true := by
+  rw [esVisit_eq] at h
+  constructor
+  · have := visitS_items c t {} none [] [e] .none h
+    simp only [actL_nil, eItemsL, List.append_nil] at this
+    exact this
+  · have := visitS_okItems c t {} none [e] h
+    simpa only [allItemsL, Bool.and_true] using this
+
+/-- up to the regrouping of Lucene-boolean operations, the clauses of the E-tree are the expected items -/
+theorem eLeaves_perm_expected (c : EsCfg) (t : Tree) (e : ETree) (h : esVisit c {} t = .ok [e]) :
+    (eLeaves e).Perm (expectedItems c t) :=
+  (visit_items c t e h).1 ▸ eLeaves_perm e
+
+/-- without Lucene-boolean operation: in document order -/
+theorem eLeaves_eq_expected (c : EsCfg) (t : Tree) (e : ETree) (hb : noBool t = true)
+    (h : esVisit c {} t = .ok [e]) : eLeaves e = expectedItems c t := by
+  have hn : noBoolOp e = true := by
+    have := visitS_noBoolOp c t {} none [e] hb (by rw [← esVisit_eq]; exact h)
+    simpa only [noBoolOpL, Bool.and_true] using this
+  rw [eLeaves_eq e hn, (visit_items c t e h).1]
+
+/-! ### the leaf clauses of the JSON -/
+
+/-- the leaf clauses of a built query are the JSON of the items of the E-tree -/
+theorem leaves_build (c : EsCfg) (t : Tree) (j : JVal) (hc : cfgPlain c = true) (h : esBuild c t = .ok j) :
+    ∃ e, esVisit c {} t = .ok [e] ∧ leaves j = (eLeaves e).map (EItem.json c) := by
+  obtain ⟨e, he, rfl⟩ := build_ok c t j h
+  exact ⟨e, he, leaves_json c hc e (visit_items c t e he).2⟩
+
+/-- **C06.** For a query without Lucene-boolean operation, the leaf clauses of the built JSON are, in
+document order, exactly the clauses expected for its terms: one per word / phrase / range. -/
+theorem leaves_eq_expected (c : EsCfg) (t : Tree) (j : JVal) (hc : cfgPlain c = true)
+    (hb : noBool t = true) (h : esBuild c t = .ok j) : leaves j = expectedLeaves c t := by
+  obtain ⟨e, he, hl⟩ := leaves_build c t j hc h
+  rw [hl, eLeaves_eq_expected c t e hb he]; rfl
+
+/-- **C06** with Lucene-boolean operations: the same as multisets — a `bool` clause built for `a +b -c`
+lists its `must` operands first, then the `should` ones, then the `must_not` ones. -/
+theorem leaves_perm_expected (c : EsCfg) (t : Tree) (j : JVal) (hc : cfgPlain c = true)
+    (h : esBuild c t = .ok j) : (leaves j).Perm (expectedLeaves c t) := by
+  obtain ⟨e, he, hl⟩ := leaves_build c t j hc h
+  rw [hl]; exact (eLeaves_perm_expected c t e he).map _
+
+/-- **(1)** as many leaf clauses as the query has words, phrases (outside ranges) and ranges -/
+theorem leaves_length (c : EsCfg) (t : Tree) (j : JVal) (hc : cfgPlain c = true)
+    (h : esBuild c t = .ok j) : (leaves j).length = countTerms t := by
+  rw [(leaves_perm_expected c t j hc h).length_eq, expectedLeaves, List.length_map, expectedItems,
+    expItems_length]
+
+/-- every leaf clause is the clause of an expected item -/
+theorem leaf_is_expected (c : EsCfg) (t : Tree) (j : JVal) (hc : cfgPlain c = true)
+    (h : esBuild c t = .ok j) (lf : JVal) (hl : lf ∈ leaves j) :
+    ∃ i ∈ expectedItems c t, lf = i.json c := by
+  have := (leaves_perm_expected c t j hc h).mem_iff.1 hl
+  obtain ⟨i, hi, rfl⟩ := List.mem_map.1 this
+  exact ⟨i, hi, rfl⟩
+
+/-- with C07: a supported query without container-field misuse and without AND/OR mix is translated,
+with exactly one leaf clause per term: the expected ones, in document order when there is no
+Lucene-boolean operation -/
+theorem every_term_one_clause (c : EsCfg) (t : Tree) (hc : cfgPlain c = true) (hs : Supported t = true)
+    (hm : misuse c t = none) (hx : Mix c t = false) :
+    ∃ j, esBuild c t = .ok j ∧ (leaves j).Perm (expectedLeaves c t) ∧ (leaves j).length = countTerms t ∧
+      (noBool t = true → leaves j = expectedLeaves c t) := by
+  obtain ⟨j, hj⟩ := Luqum.Props.C07.translated c t hs hm hx
+  exact ⟨j, hj, leaves_perm_expected c t j hc hj, leaves_length c t j hc hj,
+    fun hb => leaves_eq_expected c t j hc hb hj⟩
+
+/-- the same number of items in the E-tree, whatever the configuration -/
+theorem eLeaves_length (c : EsCfg) (t : Tree) (e : ETree) (h : esVisit c {} t = .ok [e]) :
+    (eLeaves e).length = countTerms t := by
+  rw [(eLeaves_perm_expected c t e h).length_eq, expectedItems, expItems_length]
+
+/-! ### (2) the field of each clause -/
+
+/-- **(2)** the k-th expected item is on the field path of the k-th term: the '.'-separated components
+of the names of the enclosing `SearchField`s, or the default field when there is none -/
+theorem expected_fields (c : EsCfg) (t : Tree) :
+    (expectedItems c t).map (·.fields) = expFields c none t :=
+  expItems_fields c t {} .top []
+
+/-- every item of the returned E-tree is on the field path of one of the terms -/
+theorem item_fields (c : EsCfg) (t : Tree) (e : ETree) (h : esVisit c {} t = .ok [e]) :
+    ((eLeaves e).map (·.fields)).Perm (expFields c none t) :=
+  expected_fields c t ▸ (eLeaves_perm_expected c t e h).map _
+
+theorem item_fields_eq (c : EsCfg) (t : Tree) (e : ETree) (hb : noBool t = true)
+    (h : esVisit c {} t = .ok [e]) : (eLeaves e).map (·.fields) = expFields c none t := by
+  rw [eLeaves_eq_expected c t e hb h, expected_fields]
+
+/-- where the field name `joinDot i.fields` of an item appears in its clause: as the `field` of an
+`exists` clause, nowhere visible in a `query_string` (there it is the `default_field`, see
+`json_default_field`) / `multi_match` clause, else as the single inner key `{method: {field: {…}}}` -/
+theorem json_field (c : EsCfg) (i : EItem) :
+    (∃ r, i.json c = .obj [("exists".toList, .obj (("field".toList, .str (joinDot i.fields)) :: r))]) ∨
+    ((i.method c = "query_string".toList ∨ i.method c = "multi_match".toList) ∧
+      ∃ inner, i.json c = .obj [(i.method c, .obj inner)]) ∨
+    (∃ inner, i.json c = .obj [(i.method c, .obj [(joinDot i.fields, .obj inner)])]) := by
+  unfold EItem.json
+  extract_lets field nameKv
+  split
+  · exact .inl ⟨_, rfl⟩
+  · split
+    · rename_i hm
+      refine .inr (.inl ⟨?_, _, rfl⟩)
+      simpa only [Bool.or_eq_true, beq_iff_eq] using hm
+    · exact .inr (.inr ⟨_, rfl⟩)
+
+/-- in a `query_string` clause (a word with a wildcard on an analysed field) the field name is the
+`default_field` -/
+theorem json_default_field (c : EsCfg) (i : EItem) (q : Str)
+    (hm : i.method c = "query_string".toList) (hk : i.kind ≠ .range) (hq : i.q = some q)
+    (hne : ¬ (i.kind == .word && i.q == some ['*']) = true) :
+    ∃ inner, i.json c = .obj [("query_string".toList, .obj inner)] ∧
+      jget inner "default_field".toList = some (.str (joinDot i.fields)) :=
+  Lemmas.Es.json_default_field c i q hm hk hq hne
+
+/-! ### (3) the name of each clause -/
+
+/-- **(3)** the k-th expected item carries the name of the k-th term: its own name (even an empty
+one), else the non-empty name of the nearest enclosing node — an operation flattened into the
+operation of the same kind it is an operand of (and a `+` directly below a `+`) does not count -/
+theorem expected_names (c : EsCfg) (t : Tree) :
+    (expectedItems c t).map (·.name) = expNames none .top t :=
+  expItems_names c t {} .top []
+
+theorem item_names (c : EsCfg) (t : Tree) (e : ETree) (h : esVisit c {} t = .ok [e]) :
+    ((eLeaves e).map (·.name)).Perm (expNames none .top t) :=
+  expected_names c t ▸ (eLeaves_perm_expected c t e h).map _
+
+theorem item_names_eq (c : EsCfg) (t : Tree) (e : ETree) (hb : noBool t = true)
+    (h : esVisit c {} t = .ok [e]) : (eLeaves e).map (·.name) = expNames none .top t := by
+  rw [eLeaves_eq_expected c t e hb h, expected_names]
+
+/-! ### non-vacuity, and necessity of the hypotheses -/
+
+section Examples
+
+attribute [local instance] jvalDecEq
+
+private def w (s : String) : Tree := .term .word s.toList {}
+private def named (s : String) : Lay := { name := some s.toList }
+private def num (n : Nat) : Num := { val := { coeff := n } }
+private def leavesOf : Except EsErr JVal → Option (List JVal)
+  | .ok j => some (leaves j)
+  | .error _ => none
+
+/-- `tag` is not analysed, `author.name` is a nested field, `title` is matched as a phrase -/
+private def cfg : EsCfg :=
+  { notAnalyzed := ["tag".toList],
+    nested := .dict [("author".toList, .list ["name".toList])],
+    fieldOptions := [("title".toList, [("match_type".toList, .str "match_phrase".toList)])] }
+
+/-- `a AND b AND (title:c~2)^3 AND (author.name:"x  y"~1 OR (d e)^4) AND NOT tag:[1 TO 5} AND ++tag:"p q"~1`
+where `a` is named na, the inner `b AND …` (flattened into the outer AND) is named inner, the boost bst,
+the OR or, the field `author.name` fld, the NOT neg, and the inner `+` (flattened) pp -/
+private def good : Tree :=
+  .op .and [
+    .term .word "a".toList (named "na"),
+    .op .and [w "b",
+      .boost (.group .group (.field "title".toList (.approx .fuzzy (w "c") (num 2) {}) {}) {}) (num 3) (named "bst")]
+      (named "inner"),
+    .group .group (.op .or [
+      .field "author.name".toList (.approx .proximity (.term .phrase "\"x  y\"".toList {}) (num 1) {}) (named "fld"),
+      .boost (.group .group (.op .unk [w "d", w "e"] {}) {}) (num 4) {}] (named "or")) {},
+    .unary .not (.field "tag".toList (.range (w "1") (w "5") true false {}) {}) (named "neg"),
+    .unary .plus (.unary .plus
+      (.field "tag".toList (.approx .proximity (.term .phrase "\"p q\"".toList {}) (num 1) {}) {}) (named "pp")) {}] {}
+
+example : cfgPlain cfg = true := by decide
+example : noBool good = true := by decide
+/-- the hypotheses of `leaves_eq_expected` hold, and so does its conclusion -/
+example : leavesOf (esBuild cfg good) = some (expectedLeaves cfg good) := by rw [esBuild_eq]; decide +kernel
+example : countTerms good = 8 := by decide
+/-- and the hypotheses of `every_term_one_clause` -/
+example : Supported good = true ∧ misuse cfg good = none ∧ Mix cfg good = false := by decide
+/-- (field path, name, boost, fuzziness, slop, zero_terms_query, method) of the expected items:
+`inner` and `pp` are lost (flattened), `(d e)^4` boosts nothing, the boost and the name of `(title:c~2)^3`
+reach `c` through the group and the field, the proximity is a slop on the analysed `author.name` and a
+fuzziness on the non-analysed `tag`, direct operands of AND and `+` get "all" -/
+example : (expectedItems cfg good).map (fun i => (i.fields.map String.ofList, i.name.map String.ofList,
+      String.ofList i.zeroTerms, String.ofList i.method0)) =
+    [(["text"], some "na", "all", "match"),
+     (["text"], none, "all", "match"),
+     (["title"], some "bst", "all", "fuzzy"),
+     (["author", "name"], some "fld", "none", "match_phrase"),
+     (["text"], some "or", "none", "match"),
+     (["text"], some "or", "none", "match"),
+     (["tag"], some "neg", "none", "range"),
+     (["tag"], none, "all", "fuzzy")] := by decide
+example : (expectedItems cfg good).map (fun i => (i.boost.map (·.coeff), i.fuzzy.map (·.coeff),
+      i.slop.map (·.coeff))) =
+    [(none, none, none), (none, none, none), (some 3, some 2, none), (none, none, some 1),
+     (none, none, none), (none, none, none), (none, none, none), (none, some 1, none)] := by decide
+example : (expFields cfg none good).map (·.map String.ofList) =
+    [["text"], ["text"], ["title"], ["author", "name"], ["text"], ["text"], ["tag"], ["tag"]] := by decide
+example : (expNames none .top good).map (·.map String.ofList) =
+    [some "na", none, some "bst", some "fld", some "or", some "or", some "neg", none] := by decide
+/-- the clause of the first and of the fourth term -/
+example : (leavesOf (esBuild cfg good)).map (·.take 1) = some [
+    .obj [("match".toList, .obj [("text".toList, .obj [("_name".toList, .str "na".toList),
+      ("query".toList, .str "a".toList), ("zero_terms_query".toList, .str "all".toList)])])]] := by
+  rw [esBuild_eq]; decide
+example : (leavesOf (esBuild cfg good)).map (fun ls => (ls.drop 3).take 1) = some [
+    .obj [("match_phrase".toList, .obj [("author.name".toList, .obj [("_name".toList, .str "fld".toList),
+      ("query".toList, .str "x y".toList), ("slop".toList, .num { coeff := 1 })])])]] := by
+  rw [esBuild_eq]; decide
+
+/-- NEGATIVE witness for `noBool`: `a +b -c` as a Lucene-boolean operation. The `bool` clause lists
+must (b), should (a), must_not (c): not the document order — only a permutation of it. -/
+private def lucene : Tree := .op .bool [w "a", .unary .plus (w "b") {}, .unary .prohibit (w "c") {}] {}
+example : noBool lucene = false := by decide
+example : leavesOf (esBuild cfg lucene) ≠ some (expectedLeaves cfg lucene) := by rw [esBuild_eq]; decide
+example : leavesOf (esBuild cfg lucene) =
+    some [(expectedLeaves cfg lucene)[1]!, (expectedLeaves cfg lucene)[0]!, (expectedLeaves cfg lucene)[2]!] := by
+  rw [esBuild_eq]; decide
+example : (leavesOf (esBuild cfg lucene)).map List.length = some (countTerms lucene) := by
+  rw [esBuild_eq]; decide
+
+/-- NEGATIVE witness for `cfgPlain`: a field option asking for the match type `bool` makes the clause of
+the term `{"bool": {"text": {…}}}`, which reads as a compound clause without any leaf -/
+private def cfgBool : EsCfg :=
+  { fieldOptions := [("text".toList, [("match_type".toList, .str "bool".toList)])] }
+example : cfgPlain cfgBool = false := by decide
+example : leavesOf (esBuild cfgBool (w "a")) = some [] ∧ countTerms (w "a") = 1 ∧
+    expectedLeaves cfgBool (w "a") ≠ [] := by
+  refine ⟨?_, by decide, by decide⟩; rw [esBuild_eq]; decide
+
+/-- a word with a wildcard on an analysed field: the hypotheses of `json_default_field` are satisfiable -/
+example : (expectedItems cfg (w "a*")).map (fun i => (String.ofList (i.method cfg), i.kind, i.q.map String.ofList)) =
+    [("query_string", .word, some "a*")] := by decide
+
+/-- no `Supported` hypothesis: a regex yields no clause (here below a NOT, which builds an empty `must_not`) -/
+example : leavesOf (esBuild cfg (.unary .not (.term .regex "/a/".toList {}) {})) = some [] ∧
+    countTerms (.unary .not (.term .regex "/a/".toList {}) {}) = 0 := by
+  refine ⟨?_, by decide⟩; rw [esBuild_eq]; decide
+
+end Examples
+
+/-- (kept from the stub stage; referenced by earlier evidence files) -/
 theorem normalizeObject_none : normalizeObject .none = none := rfl
+
 end Luqum.Props.C06
